@@ -46,6 +46,10 @@ pub fn styles_for(index: u64) -> Vec<Style> {
     s4.nest_tuples = true;
     s4.naming = Naming::Shadow;
     v.push(s4);
+    let mut s5 = Style::plain();
+    s5.copattern_clauses = true;
+    s5.naming = Naming::Pool;
+    v.push(s5);
     if index % 16 == 0 {
         plain.standard_builtin = true;
         v.push(plain);
